@@ -127,6 +127,15 @@ func (r *run) observe() map[string]string {
 		obs["userdoc-versions:"+k] = strings.Join(h, " ")
 	}
 	obs["rest-calls"] = strings.Join(r.restLog, " | ")
+	obs["rogue-calls"] = strings.Join(r.rogueLog, " | ")
+	var cds []string
+	for _, d := range r.docsOf(schema.CollectionNameClients) {
+		id, _ := get(d, "_id")
+		cn, _ := get(d, "colNum")
+		cds = append(cds, fmt.Sprintf("%s@%s", who(fmt.Sprint(id)), colls[int32(toInt(cn))]))
+	}
+	sort.Strings(cds)
+	obs["client-docs"] = strings.Join(cds, " ")
 	var pubs []string
 	for _, p := range w.br.pubs {
 		var n notif
